@@ -305,3 +305,110 @@ pub fn sched_from_json(v: &Value) -> crate::xplore::Sched {
         })
         .unwrap_or_default()
 }
+
+/// Result of running one scenario in a child process (isolation: a double
+/// panic / abort / OS-level hang in the code under test must not take the
+/// whole check down, it is a finding for that scenario).
+pub enum Child {
+    Done(Value),
+    Crashed(String),
+    TimedOut,
+}
+
+pub fn run_child(args: &[String], timeout: std::time::Duration) -> Child {
+    use std::io::Read;
+    let exe = std::env::current_exe().expect("current exe");
+    let mut cmd = std::process::Command::new(exe);
+    cmd.arg("child").args(args);
+    cmd.stdout(std::process::Stdio::piped());
+    cmd.stderr(std::process::Stdio::piped());
+    let mut ch = match cmd.spawn() {
+        Ok(c) => c,
+        Err(e) => return Child::Crashed(format!("cannot spawn child: {e}")),
+    };
+    let mut so = ch.stdout.take().unwrap();
+    let mut se = ch.stderr.take().unwrap();
+    let t_out = std::thread::spawn(move || {
+        let mut s = String::new();
+        let _ = so.read_to_string(&mut s);
+        s
+    });
+    let t_err = std::thread::spawn(move || {
+        let mut s = Vec::new();
+        let _ = se.read_to_end(&mut s);
+        let s = String::from_utf8_lossy(&s).to_string();
+        let n = s.len();
+        s[n.saturating_sub(3000)..].to_string()
+    });
+    let start = Instant::now();
+    let status = loop {
+        match ch.try_wait() {
+            Ok(Some(st)) => break Some(st),
+            Ok(None) => {
+                if start.elapsed() > timeout {
+                    let _ = ch.kill();
+                    let _ = ch.wait();
+                    break None;
+                }
+                std::thread::sleep(std::time::Duration::from_millis(20));
+            }
+            Err(_) => break None,
+        }
+    };
+    let out = t_out.join().unwrap_or_default();
+    let err = t_err.join().unwrap_or_default();
+    let Some(st) = status else { return Child::TimedOut };
+    if let Some(line) = out.lines().rev().find(|l| l.starts_with("RESULT ")) {
+        if let Ok(v) = serde_json::from_str::<Value>(&line[7..]) {
+            return Child::Done(v);
+        }
+    }
+    Child::Crashed(format!(
+        "child exited with {st} without a result; stderr tail: {}",
+        err.lines().rev().take(12).collect::<Vec<_>>().into_iter().rev().collect::<Vec<_>>().join(" | ")
+    ))
+}
+
+pub fn emit_child_result(v: &Value) {
+    println!("RESULT {}", serde_json::to_string(v).unwrap());
+}
+
+/// Explore scenario `idx` of `check` in a child process; a crash or hang of
+/// the child is recorded as a violation of that scenario.
+pub fn explore_isolated(
+    rep: &mut Report,
+    check: &str,
+    idx: usize,
+    name: &str,
+    thorough: bool,
+) -> Option<crate::xplore::Summary> {
+    let timeout =
+        std::time::Duration::from_secs(if thorough { 2400 } else { 300 });
+    match run_child(&[check.to_string(), idx.to_string()], timeout) {
+        Child::Done(v) => Some(crate::xplore::Summary::from_json(&v)),
+        Child::Crashed(m) => {
+            rep.violation(Violation {
+                what: format!(
+                    "{name}: the process died while exploring this scenario \
+                     (abort / double panic in the code under test): {m}"
+                ),
+                tags: vec!["process-aborted".into()],
+                replay: json!({"check": check, "thorough": thorough,
+                    "scenario_index": idx, "schedule": []}),
+            });
+            None
+        }
+        Child::TimedOut => {
+            rep.violation(Violation {
+                what: format!(
+                    "{name}: exploration did not finish within {timeout:?} \
+                     (OS-level hang of the code under test)"
+                ),
+                tags: vec!["hang".into()],
+                replay: json!({"check": check, "thorough": thorough,
+                    "scenario_index": idx, "schedule": []}),
+            });
+            None
+        }
+    }
+}
